@@ -151,6 +151,10 @@ func (b *Batch) Delete(key []byte) error {
 	b.mu.Lock()
 	defer b.mu.Unlock()
 
+	if b.committed {
+		return ErrBatchCommitted
+	}
+
 	logRecord := b.findPendingRecord(key)
 
 	// 缓存命中, 直接操作缓存
@@ -185,17 +189,20 @@ func (b *Batch) Delete(key []byte) error {
 }
 
 func (b *Batch) Commit() error {
-	// 提交后允许操作 DB 实例
-	defer b.db.mu.Unlock()
-
 	b.mu.Lock()
 	defer b.mu.Unlock()
 
-	if len(b.staged) == 0 {
-		return nil
-	}
+	// 已提交的批处理不再持有 DB 锁, 不得重复释放
 	if b.committed {
 		return ErrBatchCommitted
+	}
+	// 提交后允许操作 DB 实例
+	// 无论提交结果如何 DB 锁均被释放, 批处理不可再使用
+	defer b.db.mu.Unlock()
+	b.committed = true
+
+	if len(b.staged) == 0 {
+		return nil
 	}
 
 	err := b.flushStaged()
